@@ -8,6 +8,7 @@
    of octets and fuel-suffices is proved. *)
 From SV Require Import Lib.Base Gen.Consts Gen.WireFields Model.WireBase Proofs.WireBaseProofs.
 From SV Require Import Model.WireIpv6Opt Proofs.WireIpv6OptProofs.
+From SV Require Import Model.WireIpv6Hbh Proofs.WireIpv6HbhProofs.
 
 (* ---------------- IPv6 extension-header option ----------------
    data_len / data are documented to panic on a one-octet Pad1 option: they apply to every
@@ -52,3 +53,15 @@ Theorem C07_v6opt_iter_err_last : forall fuel data pos pre x post,
   v6opt_iter_fuel fuel data pos = pre ++ x :: post -> post <> [] -> exists r, x = Ok r.
 Proof. exact v6opt_iter_fuel_err_last. Qed.
 Print Assumptions C07_v6opt_iter_err_last.
+
+(* ---------------- Hop-by-Hop options header ----------------
+   The only accessor is options() (the whole buffer).  Repr::parse drains the options iterator
+   (terminating by C07_v6opt_iter_fuel_suffices) and stops collecting when the Vec is full. *)
+
+Theorem C07_v6hbh_accessors_safe : forall bs, v6hbh_check_len bs = Ok tt -> v6hbh_options bs <> Panic.
+Proof. exact v6hbh_accessors_safe. Qed.
+Print Assumptions C07_v6hbh_accessors_safe.
+
+Theorem C07_v6hbh_parse_total : forall bs, bytes_ok bs = true -> v6hbh_parse bs <> Panic.
+Proof. exact v6hbh_parse_total. Qed.
+Print Assumptions C07_v6hbh_parse_total.
